@@ -410,7 +410,7 @@ def instrument(S, cfg, CR, goals):
     return M
 
 
-def run_sessions(ctx, prop, n_sessions, gen_opts, cfg_opts=None, extra_monitor=None, n_directed=34):
+def run_sessions(ctx, prop, n_sessions, gen_opts, cfg_opts=None, extra_monitor=None, n_directed=36):
     """Generate sessions, follow them with the model, collect this property's monitor hits."""
     CG, CR, nsgenv = _imports()
     rng0 = random.Random(ctx.seed * 104729 + int(prop[1:]))
